@@ -21,6 +21,17 @@ def fm(x):
     return '%s %d %d' % ('s' if x[0] else 'u', x[1], x[2])
 
 
+def result_word(op, x, y):
+    """optimal result word of the three division operators (functions.py: floordiv / truediv / mod)."""
+    sg = int(x[0] or y[0])
+    xi, yi = x[1] - x[2] - int(x[0]), y[1] - y[2] - int(y[0])
+    if op == 'floordiv':
+        return 2 * sg + xi + y[2]
+    if op == 'truediv':
+        return 2 * sg + xi + y[2] + x[2] + yi
+    return sg + (max(xi, yi) if sg else min(xi, yi)) + max(x[2], y[2])
+
+
 def generate(tier, rng):
     L = lambda l: tok_list([str(c) for c in l])
     maxw = 3 if tier == 'quick' else 5
@@ -42,16 +53,17 @@ def generate(tier, rng):
                     yield 'DV %s %s %s %s %s %s %s %s %s' % (op, meth, route, fm(x), fm(y), r, rng.choice(OVFS), L(a), L(b))
     for _ in range(2000 if tier == 'quick' else 60000):
         sx, sy = rng.random() < 0.5, rng.random() < 0.5
-        nx, ny = rng.randint(1 + int(sx), 24), rng.randint(1 + int(sy), 24)
+        op = rng.choice(['truediv', 'floordiv', 'mod'])
+        wide = rng.random() < 0.4       # operand words up to 52 bits, as long as the optimal result word stays <= 53
+        nx, ny = rng.randint(1 + int(sx), 52 if wide else 24), rng.randint(1 + int(sy), 52 if wide else 24)
         x = (sx, nx, rng.randint(0, nx - int(sx))); y = (sy, ny, rng.randint(0, ny - int(sy)))
-        if 2 * int(sx or sy) + nx - int(sx) + ny - int(sy) > 53:
+        if result_word(op, x, y) > 53:
             continue
         lox, hix = lims(*x[:2]); loy, hiy = lims(*y[:2])
         k = rng.choice([1, 1, 3])
         a = [rng.choice([lox, hix, 1, rng.randint(lox, hix)]) for _ in range(k)]
         b = [rng.choice([loy, hiy, 1, -1 if sy else 1, rng.randint(loy, hiy)]) for _ in range(k)]
         b = [v if v != 0 else 1 for v in b]
-        op = rng.choice(['truediv', 'floordiv', 'mod'])
         meth = rng.choice(['raw', 'repr'])
         yield 'DV %s %s %s %s %s %s %s %s %s' % (op, meth, rng.choice(['operator', 'function']), fm(x), fm(y),
                                                  rng.choice(ROUNDS), rng.choice(OVFS), L(a), L(b))
